@@ -94,6 +94,9 @@ func (s *simSender) SendContributionToParent(view hotstuff.View, sig hotstuff.Qu
 	for _, f := range s.w.hooks.onContribution {
 		f(s.nd, view, sig)
 	}
+	if s.w.adv != nil && s.w.adv.anonContribution(s.nd, parent, c) {
+		return
+	}
 	s.w.send(s.nd, parent, "contrib", c)
 	if s.w.adv != nil {
 		s.w.adv.onContribution(s.nd, view, sig)
@@ -237,6 +240,12 @@ func (w *World) fetch(nd *Node, hash hotstuff.Hash) (*hotstuff.Block, bool) {
 					cp := &hotstuffpb.Block{}
 					if proto.Unmarshal(buf, cp) == nil {
 						replies[uint32(peer.id)] = cp
+						if peer.honest && hotstuffpb.BlockFromProto(cp).Hash() != hash {
+							// an honest replica serves, under the requested hash, something that does not decode to a
+							// block with that hash: what it stores is no longer what it stored, or the encoding lost it
+							w.violate("C12", "C12/fetch/meaning", peer, "%s answers the request for %s with a block that decodes to another hash", peer, w.reg.sym(hash))
+							w.violate("C13", "C13/content", peer, "%s serves under the hash of %s a block that does not have that hash", peer, w.reg.sym(hash))
+						}
 					}
 				}
 			}
